@@ -303,6 +303,22 @@ def _names_no_branch(node, defs, d, tuples):
 _UNIONS = {}
 
 
+def twin_union(u):
+    """The same union with every named branch REDEFINED under the same name (enum: other symbols in another order,
+    fixed: other size, record: one more required field): what a later schema version looks like.  Anything the
+    library remembers per type name from the first version shows when the twin is used in the same process."""
+    out = []
+    for b in copy.deepcopy(u):
+        if isinstance(b, dict) and b.get("type") == "enum":
+            b["symbols"] = ["ZZ"] + list(reversed(b["symbols"][1:])) + ["YY"]
+        elif isinstance(b, dict) and b.get("type") == "fixed":
+            b["size"] += 1
+        elif isinstance(b, dict) and b.get("type") == "record":
+            b["fields"] = [{"name": "tw", "type": "boolean"}] + b["fields"]
+        out.append(b)
+    return out
+
+
 def units(tier):
     _UNIONS[tier] = unions(tier)
     return list(range(len(_UNIONS[tier])))
@@ -316,7 +332,17 @@ def run_unit(i, tier):
         _UNIONS[tier] = unions(tier)
     u = _UNIONS[tier][i]
     nseen = 0
-    for ctx, raw in contexts(u):
+    ctxs = contexts(u)
+    tw = twin_union(u)
+    if tw != u:
+        # version 2 of the named types, then version 1 again, in the same process
+        ctxs += [("twin:" + c, r) for c, r in contexts(tw)[:2]] + [("again:" + c, r) for c, r in contexts(u)[:2]]
+    for ctx, raw in ctxs:
+        if ctx.startswith("twin:"):
+            u = tw
+        elif ctx.startswith("again:"):
+            u = _UNIONS[tier][i]
+        ctx = ctx.split(":")[-1]
         node, defs = names.resolve(raw)
         try:
             parsed = fa.parse_schema(copy.deepcopy(raw))
